@@ -32,9 +32,7 @@ def lib():
     return _L
 
 
-class FakeStdin:
-    def __init__(self, data):
-        self.buffer = io.BytesIO(data)
+from .chk_sources import FakeStdin  # noqa: E402
 
 
 # ---------------------------------------------------------------------------
@@ -125,6 +123,7 @@ def run_cli(argv_tail, rec_name, input_kind, workdir, extra_files=False):
     os.makedirs(workdir)
     argv = []
     stdin_data = None
+    stdin_chunks = None
     if input_kind in ("wav", "wav_L"):
         path = os.path.join(workdir, "in.wav")
         with wave.open(path, "wb") as fp:
@@ -142,9 +141,10 @@ def run_cli(argv_tail, rec_name, input_kind, workdir, extra_files=False):
             argv.append("-L")
         if input_kind == "raw_f":
             argv += ["-f", "raw"]
-    elif input_kind == "stdin":
+    elif input_kind.startswith("stdin"):
         argv = ["-", "-r", str(r["rate"]), "-c", str(r["ch"]), "-w", str(r["sw"])]
         stdin_data = data
+        stdin_chunks = [int(x) for x in input_kind.split(":")[1].split(",")] if ":" in input_kind else None
     elif input_kind == "raw_defaults":
         path = os.path.join(workdir, "in.raw")
         with open(path, "wb") as fp:
@@ -162,7 +162,7 @@ def run_cli(argv_tail, rec_name, input_kind, workdir, extra_files=False):
             sys.stdout, sys.stderr = out, err
             sys.argv = ["auditok"] + argv
             if stdin_data is not None:
-                sys.stdin = FakeStdin(stdin_data)
+                sys.stdin = FakeStdin(stdin_data, stdin_chunks)
             try:
                 res.status = L["cmdline"].main(argv)
             except SystemExit as exc:
@@ -530,7 +530,7 @@ def run(prop, tier):
     formatter_misc(rep)
     misc(rep, tier)
     pts = core_points()
-    kinds = ["wav", "wav_L", "raw", "raw_f", "stdin", "raw_L"]
+    kinds = ["wav", "wav_L", "raw", "raw_f", "stdin", "raw_L", "stdin:7", "stdin:33,1"]
     tasks = []
     for ri, rec in enumerate(list(RECS)[:3]):
         for ki, kind in enumerate(kinds):
